@@ -45,7 +45,10 @@ def seg_str(w, t, fnpath):
                 if a[0] == "const":
                     s += str(a[1])
                 else:
-                    s += "{" + seg_str(w, a, fnpath) + "}"
+                    inner = seg_str(w, a, fnpath)
+                    if inner == "{algorithm-enum}" and p[1] == "new_display":
+                        inner = "{algorithm}"      # Display of the algorithm == to_string()
+                    s += inner if inner.startswith("{") or inner.startswith("sha") or inner.startswith("hex(") else "{" + inner + "}"
         return s
     if t[0] == "call":
         rng = ""
